@@ -28,5 +28,13 @@ META["C12"] = {
     "note": "Trusted: Lean kernel, T1/T2, harness reflection over the public accessors. Literal denotation: Lean re-implementation validated against Go's time/regexp behaviour by sampling only.",
 }
 
+META["C09"] = {
+    "category": "proof",
+    "design_ref": "DESIGN.md section 5 / C09",
+    "technique": "Lean 4: pub transcribed as free-monad programs over the application-interface alphabet; lock discipline as a trace monitor; Hoare-style judgement Lk proved sound once and discharged per function by a rule-applying tactic, for all inputs and all environments (= every fault pattern); negation of the full statement for inbox forwarding proved on a kernel-evaluated witness; model tied to the Go code by call-for-call trace replay incl. single-fault runs",
+    "text": "For every request, configuration and EVERY sequence of answers of the application (so: the fault-free run, each single fault, any combination) the transcribed handlers keep the lock monitor alive and return with nothing held: full discipline (incl. no re-lock while held) for PostOutbox, Send, GetInbox, GetOutbox, the GET handler and the inbox side effects; for the inbox POST including inbox forwarding the balance/no-stray-unlock/access-under-lock part, while the re-lock clause is proved FALSE there with a concrete witness (recorded finding C09-fwd-relock; three other lock defects were repaired by fix: commits). Each run replays thousands of real traces (fault-free and single-fault) against the model and runs the same monitor on the implementation's own traces.",
+    "note": "Trusted: Lean kernel (propext, Quot.sound, Classical.choice where simp uses it), the hand transcription (validated by replay each run), the Go fakes and driver. Panics are tolerated by this judgement (C11). Go-level aliasing and the scheduler are outside.",
+}
+
 _ALL = ["C%02d" % i for i in range(1, 21)]
 NOT_APPLICABLE = [{"property_id": p, "reason": PENDING} for p in _ALL if p not in META]
